@@ -147,6 +147,28 @@ def _plan(run, P):
     for fn, lp in loops:
         it = lp.iter
         ok = isinstance(it, ast.Call) and dotted(it.func) in ("sorted", "natsorted")
+        if not ok and isinstance(it, ast.Name):
+            # a local: sorted if every value it is given is sorted(...), or comes out of a
+            # table of the same function whose every stored value is sorted(...)
+            srcs = [s_.value for s_ in ast.walk(fn.node) if isinstance(s_, ast.Assign)
+                    and any(isinstance(t_, ast.Name) and t_.id == it.id for t_ in s_.targets)]
+
+            def is_sorted(v):
+                if isinstance(v, ast.Call) and dotted(v.func) in ("sorted", "natsorted"):
+                    return True
+                if isinstance(v, ast.Subscript) and dotted(v.value):
+                    tbl = dotted(v.value)
+                    stored = [s_.value for s_ in ast.walk(fn.node) if isinstance(s_, ast.Assign)
+                              and any(isinstance(t_, ast.Subscript) and dotted(t_.value) == tbl
+                                      for t_ in s_.targets)]
+                    return bool(stored) and all(is_sorted(x_) for x_ in stored)
+                return None
+            verdicts = [is_sorted(v) for v in srcs]
+            if srcs and all(v is True for v in verdicts):
+                ok = True
+            elif not srcs or any(v is None for v in verdicts):
+                raise AnalysisError(f"update_plan: where {it.id} of 'for {norm(lp.target)} in "
+                                    f"{it.id}' comes from is not recognised")
         run.ob("C15.plan", fn, lp, ok,
                construct=f"for {norm(lp.target)} in {norm(it, 60)}",
                why="independent statements are executed, and their events produced, in "
@@ -287,7 +309,13 @@ def _loop_accumulators(lp):
             elif isinstance(n, ast.Call) and isinstance(n.func, ast.Attribute) \
                     and n.func.attr in _ACC_MUTATORS and dotted(n.func.value):
                 acc.add(dotted(n.func.value))
-    return acc
+    # what every turn of the loop starts afresh is not carried from turn to turn
+    fresh = {t.id for s in lp.body if isinstance(s, ast.Assign) for t in s.targets
+             if isinstance(t, ast.Name) and (
+                 isinstance(s.value, (ast.List, ast.Dict, ast.Set, ast.ListComp, ast.DictComp, ast.SetComp))
+                 or (isinstance(s.value, ast.Call) and dotted(s.value.func) in (
+                     "set", "list", "dict", "deque", "collections.deque", "defaultdict")))}
+    return acc - fresh
 
 
 def _decisions_on(lp, acc):
@@ -524,6 +552,30 @@ def _globals(run, P):
                                 and t.value.id in mutable_globals \
                                 and t.value.id not in local_names and t.value.id not in params:
                             n += 1
+                            # a memo (consulted under the key it is filled under) is a
+                            # function of its key if the memokey lint has nothing to say
+                            ktxt = norm(t.slice)
+                            tbl = t.value.id
+                            consulted = any(
+                                (isinstance(x, ast.Subscript) and x is not t and dotted(x.value) == tbl
+                                 and isinstance(x.ctx, ast.Load) and norm(x.slice) == ktxt)
+                                or (isinstance(x, ast.Compare) and len(x.ops) == 1
+                                    and isinstance(x.ops[0], (ast.In, ast.NotIn))
+                                    and dotted(x.comparators[0]) == tbl and norm(x.left) == ktxt)
+                                or (isinstance(x, ast.Call) and isinstance(x.func, ast.Attribute)
+                                    and x.func.attr == "get" and dotted(x.func.value) == tbl
+                                    and x.args and norm(x.args[0]) == ktxt)
+                                for x in ast.walk(f.node))
+                            from .generic import _memokey
+                            if consulted:
+                                loose = [w for _n, w in _memokey(f) if f"'{tbl}[" in w]
+                                run.ob("C15.global", f, s, not loose,
+                                       construct=f"{norm(s)[:60]}: a memo"
+                                                 + (f" ({loose[0][:80]})" if loose else
+                                                    " whose value its key determines"),
+                                       why="a remembered value that depends on more than its key makes "
+                                           "results depend on earlier calls in the process")
+                                continue
                             run.ob("C15.global", f, s, False,
                                    why="module-level container mutated by a function")
                 if isinstance(s, ast.Call) and isinstance(s.func, ast.Attribute) \
